@@ -1,11 +1,109 @@
 import TucanProofs.Lemmas.Sort
-import TucanModel.Canon
-/-! # C14 — property theorems (see DESIGN.md §5) -/
+import TucanProofs.Lemmas.Bfs
+import TucanProofs.Lemmas.SerializeCongr
+/-!
+# C14 — determinism across processes, call histories and threads  (PARTIAL)
+
+What a theorem can carry:
+* (a) *order-obliviousness*: every set- or dict-derived sequence the modelled code reads is sorted first,
+  and sorting is a function of the multiset — so the result cannot depend on hash-seed dependent
+  iteration order (`C14_sorted_sequences_order_oblivious`, and at the level of whole operations
+  `C14_serialize_listing_oblivious`);
+* (b) *history independence*: model operations are functions of their arguments (Lean functions); the
+  only write to an argument is the scratch flag reset (C12);
+* (c) an abstract model of a shared lazily-filled cache (the ANTLR prediction cache): under every
+  interleaving of reads, publishes and aborted computations, every stored entry and every returned value
+  equals `f k`.
+What it cannot exhibit — CPython's thread switching inside the ANTLR runtime, networkx and igraph — is
+sampled by the harness (subprocesses under several PYTHONHASHSEED values and call orders, 8 threads).
+-/
 namespace Tucan
 
-/-- The neighbour part of an attribute sequence does not depend on the order in which the neighbours
-are listed. -/
-theorem C14_neighbour_keys_listing_independent {l₁ l₂ : List Key} (h : l₁.Perm l₂) :
-    sortKDesc l₁ = sortKDesc l₂ := sortKDesc_perm_eq h
+/-- (a) all the sorts the pipeline uses depend only on the multiset of their input -/
+theorem C14_sorted_sequences_order_oblivious :
+    (∀ l₁ l₂ : List Nat, l₁.Perm l₂ → sortN l₁ = sortN l₂) ∧
+    (∀ l₁ l₂ : List Key, l₁.Perm l₂ → sortKDesc l₁ = sortKDesc l₂) ∧
+    (∀ l₁ l₂ : List Seq, l₁.Perm l₂ → sortS l₁ = sortS l₂) ∧
+    (∀ l₁ l₂ : List (Seq × Nat), l₁.Perm l₂ → l₁.mergeSort leSN = l₂.mergeSort leSN) ∧
+    (∀ l₁ l₂ : List (Nat × Nat), l₁.Perm l₂ → l₁.mergeSort leNN = l₂.mergeSort leNN) :=
+  ⟨fun _ _ h => sortN_perm_eq h, fun _ _ h => sortKDesc_perm_eq h, fun _ _ h => sortS_perm_eq h,
+   fun _ _ h => sortSN_perm_eq h, fun _ _ h => sortNN_perm_eq h⟩
 
+/-- (a) at the level of an operation: the serializer's result does not depend on the order in which
+nodes and neighbours are iterated -/
+theorem C14_serialize_listing_oblivious (c c' : Graph) (hw : c.WF) (hs : c.Simple) (hw' : c'.WF) (hs' : c'.Simple)
+    (same : Iso SameIdentPart id c c') (s s' : Str) (p p' : Graph)
+    (h : serializeMolecule c = .ok (s, p)) (h' : serializeMolecule c' = .ok (s', p')) : s = s' :=
+  serialize_congr c c' hw hs hw' hs' same s s' p p' h h'
+
+/-! ### (c) a lazily filled shared cache -/
+
+section Cache
+variable {κ ν : Type} [DecidableEq κ] (f : κ → ν)
+
+/-- an atomic step of some thread: look a key up, publish a computed entry, or abort a computation
+(an exception while the entry was being computed leaves the cache as it is) -/
+inductive CacheStep (κ : Type)
+  | read (thread : Nat) (k : κ)
+  | publish (thread : Nat) (k : κ)
+  | abort (thread : Nat)
+
+structure CacheState (κ ν : Type) where
+  table : κ → Option ν
+  returned : List (Nat × κ × ν)      -- (thread, key, value handed to the caller)
+
+def cacheStep (s : CacheState κ ν) : CacheStep κ → CacheState κ ν
+  | .read t k =>
+    match s.table k with
+    | some v => { s with returned := (t, k, v) :: s.returned }   -- hit
+    | none => s                                                   -- miss: the thread goes on to compute
+  | .publish t k =>
+    { table := fun k' => if k' = k then some (f k) else s.table k',
+      returned := (t, k, f k) :: s.returned }
+  | .abort _ => s
+
+def CacheInv (s : CacheState κ ν) : Prop :=
+  (∀ k v, s.table k = some v → v = f k) ∧ (∀ r ∈ s.returned, r.2.2 = f r.2.1)
+
+theorem cacheStep_inv (s : CacheState κ ν) (a : CacheStep κ) (h : CacheInv f s) : CacheInv f (cacheStep f s a) := by
+  obtain ⟨h1, h2⟩ := h
+  cases a with
+  | read t k =>
+    simp only [cacheStep]
+    cases hk : s.table k with
+    | none => exact ⟨h1, h2⟩
+    | some v =>
+      refine ⟨h1, ?_⟩
+      intro r hr
+      rcases List.mem_cons.mp hr with rfl | hr
+      · exact h1 k v hk
+      · exact h2 r hr
+  | publish t k =>
+    refine ⟨?_, ?_⟩
+    · intro k' v hv
+      simp only [cacheStep] at hv
+      by_cases hkk : k' = k
+      · simp [hkk] at hv; rw [hkk]; exact hv.symm
+      · simp [hkk] at hv; exact h1 k' v hv
+    · intro r hr
+      simp only [cacheStep] at hr
+      rcases List.mem_cons.mp hr with rfl | hr
+      · rfl
+      · exact h2 r hr
+  | abort t => exact ⟨h1, h2⟩
+
+/-- **Every interleaving, every history.**  Starting from any cache whose entries are correct (in
+particular the empty one, or one left partly filled by earlier — possibly failed — calls), after any
+sequence of atomic steps of any number of threads every entry is still correct and every value ever
+handed to a caller equals `f k`. -/
+theorem C14_cache_any_interleaving (s : CacheState κ ν) (steps : List (CacheStep κ)) (h : CacheInv f s) :
+    CacheInv f (steps.foldl (cacheStep f) s) := by
+  induction steps generalizing s with
+  | nil => exact h
+  | cons a as ih => exact ih _ (cacheStep_inv f s a h)
+
+/-- the empty cache satisfies the invariant (non-vacuity) -/
+example : CacheInv f (⟨fun _ => none, []⟩ : CacheState κ ν) := ⟨by simp, by simp⟩
+
+end Cache
 end Tucan
